@@ -698,7 +698,11 @@ class Oracle:
                     if any(x.xsi_nil is not None or x.xsi_type is not None for x in all_nodes(k)): self.flags.add('xsi-in-skip')
                     continue
                 if g is not None: self.assess(k, g, self._tns_of_decl(g), tags)
-                elif leaf.pc == 'strict': tags.add('strict-undeclared')
+                elif leaf.pc == 'strict':
+                    # Structures 3.10.1: strict = a top-level declaration is available OR the item has an xsi:type; the second case is assessed
+                    # against that type, which the model does not follow: flagged, not judged
+                    if k.xsi_type is not None: self.flags.add('ambiguous:strict-undeclared-with-xsitype')
+                    else: tags.add('strict-undeclared')
                 elif any(x.xsi_nil is not None or x.xsi_type is not None for x in all_nodes(k)):
                     self.flags.add('ambiguous:xsi-in-lax-undeclared')      # lax assessment honours xsi:type: partial-declaration territory, not generated
     def _simple_content(self, node, d, tname, tags):
